@@ -898,3 +898,22 @@ Proof.
   destruct (oi_next_spec Identity b B it Hrep Hi) as (it' & E' & _). exists it, it'. split; [exact E|].
   rewrite E', Hm. reflexivity.
 Qed.
+
+(* ---- both select supports in sequence (as enable_select + enable_select_zero do) ---- *)
+
+Lemma bv_same_trans a b c : bv_same a b -> bv_same b c -> bv_same a c.
+Proof. intros [H1 H2] [H3 H4]. split; congruence. Qed.
+
+Theorem bv_enable_both_select sp m b1 B : bv_repr b1 B -> bv_select b1 = None -> bv_select_zero b1 = None ->
+  exists b2 b3, bv_enable_select_t sp m Identity b1 = Ok b2 /\ bv_enable_select_t sp m Complement b2 = Ok b3 /\
+    bv_repr b3 B /\ bv_same b1 b3 /\ bv_rank b3 = bv_rank b1 /\
+    select_ok sp m Identity b3 B /\ select_ok sp m Complement b3 B.
+Proof.
+  intros Hrep Hn1 Hn0.
+  destruct (bv_enable_select_t_spec sp m Identity b1 B Hrep) as (b2 & E2 & Hrep2 & Hs12 & Hr2 & Hz2 & Hok2 & _).
+  destruct (bv_enable_select_t_spec sp m Complement b2 B Hrep2) as (b3 & E3 & Hrep3 & Hs23 & Hr3 & Hz3 & Hok3 & _).
+  exists b2, b3. split; [exact E2|]. split; [exact E3|]. split; [exact Hrep3|].
+  split; [exact (bv_same_trans _ _ _ Hs12 Hs23)|]. split; [congruence|]. split.
+  - apply (select_ok_same sp m Identity b2 b3 B Hs23); [exact Hz3|]. apply Hok2. exact Hn1.
+  - apply Hok3. cbn [t_support]. congruence.
+Qed.
